@@ -8,6 +8,7 @@ from . import common as C
 def native_check(cfg, env=None, seed=0, scale=1.0):
     """Returns list of failed clauses (empty = property holds at this point)."""
     rng = np.random.default_rng(seed)
+    C.VIA[0] = cfg.get("via")
     st = C.make_state(cfg["kind"], cfg["nv"], cfg["nh"])
     C.randomize(st, rng, scale)
     C.set_env(st, env)
@@ -48,6 +49,11 @@ def native_check(cfg, env=None, seed=0, scale=1.0):
             fails.append(("positive phase not identically zero", ph.tolist()))
         if np.any(psi[1] != 0) or np.any(psi[0] < 0) or not C.close(psi[0], amp):
             fails.append(("positive psi not real non-negative", None))
+    # normalised probabilities, Z handed over as a Python float and as the tensor normalization() returns
+    for zform, zz in (("Python float", Z), ("tensor", st.normalization(space)), ("awkward float", 0.1 * Z)):
+        pn = st.probability(space, zz).numpy() * (0.1 if zform == "awkward float" else 1.0)
+        if not np.allclose(pn * Z, marg, rtol=1e-12, atol=0) or abs(pn.sum() - 1.0) > 1e-12:
+            fails.append(("probability(v, Z) with Z as a %s: not exp(-E)/Z at double precision" % zform, float(np.max(np.abs(pn * Z / marg - 1.0)))))
     # vector call forms
     for r in (0, 2 ** nv - 1):
         v = space[r]
@@ -153,6 +159,12 @@ def bounded(tier, seed):
                 n += 1
                 if f:
                     bad.append(({"kind": kind, "nv": nv, "nh": nh, "seed": s, "regime": "magnitudes up to 30"}, f[:2]))
+        for via in ("deepcopy", "pickle"):
+            f = native_check({"kind": kind, "nv": 2, "nh": 3, "via": via}, None, seed + 3, 1.0)
+            n += 1
+            if f:
+                bad.append(({"kind": kind, "nv": 2, "nh": 3, "via": via}, f[:2]))
+    C.VIA[0] = None
     return {"driver": "drivers/C01.native_check + large_regime + tied_regime", "label": "bounded", "evaluations": n, "failures": len(bad),
-            "bound": "float64, %d architectures x 3 random parameter draws (non-zero biases, gaussian scale 1, 3, 6/size) 2 draws with magnitudes up to 30 compared in the log domain, and one permutation-symmetric setting with tied largest weights (also with shuffled basis rows)" % len(archs),
+            "bound": "float64, one state per kind reached by deepcopy / pickle round trip, %d architectures x 3 random parameter draws (non-zero biases, gaussian scale 1, 3, 6/size) 2 draws with magnitudes up to 30 compared in the log domain, and one permutation-symmetric setting with tied largest weights (also with shuffled basis rows)" % len(archs),
             "first_failures": bad[:2]}
